@@ -11,7 +11,7 @@ use serde_json::json;
 use tls_parser::nom;
 use tls_parser::*;
 
-pub const RULE: &str = "reference encodings of ServerDHParams (field lengths 0,1,255,256,65535 and random), ECParameters named-curve (all 65536 groups) and explicit-prime (seven u8-prefixed fields 0..255), ServerECDHParams, ECPoint, both DigitallySigned forms (all 256x256 algorithm pairs; signature lengths 0..65535), each followed by arbitrary trailing bytes; every strict prefix; all 254 other curve types; parse_content_and_signature with both flag values and three content parsers on inputs where the two signature forms decode differently. distinct_nontrivial = distinct (family, structure, length classes, flag, outcome) tuples";
+pub const RULE: &str = "reference encodings of ServerDHParams (field lengths 0,1,255,256,65535 and random), ECParameters named-curve (all 65536 groups) and explicit-prime (seven u8-prefixed fields 0..255), ServerECDHParams, ECPoint, both DigitallySigned forms (all 256x256 algorithm pairs; signature lengths 0..65535), each followed by arbitrary trailing bytes; every strict prefix; all 254 other curve types; every derive-generated entry point (parse / parse_be / parse_le) of NamedGroup, ECCurveType, ECParametersContent, ECParameters, ServerECDHParams, ECPoint and ServerDHParams on the same encodings (all 65536 groups, all 256 curve types, the generated explicit-prime and DH values); parse_content_and_signature with both flag values and three content parsers on inputs where the two signature forms decode differently. distinct_nontrivial = distinct (family, structure, length classes, flag, outcome) tuples";
 pub const ASSUMPTIONS: &[&str] = &["error kinds are not judged"];
 
 macro_rules! rt {
@@ -46,6 +46,45 @@ macro_rules! rt {
     }};
 }
 
+/// the derive-generated entry points (`parse`, `parse_be`, `parse_le`) of a public type: TLS is
+/// network byte order whatever "endianness" the caller names, so all three must decode the value an
+/// RFC encoder wrote and stop at the end of the structure's own encoding
+macro_rules! entry3 {
+    ($ctx:expr, $ty:literal, $input:expr, $enc_len:expr, [$p:expr, $pbe:expr, $ple:expr], $ok:expr) => {{
+        let input: &[u8] = $input;
+        let enc_len: usize = $enc_len;
+        let calls: [(&str, &dyn Fn(&[u8]) -> (Out, bool, String)); 3] = [
+            ("parse", &|i: &[u8]| { let r = $p(i); let o = classify(&r); match &r { Ok((_, v)) => (o, $ok(v), format!("{:.200?}", DbgOr(v))), Err(_) => (o, false, String::new()) } }),
+            ("parse_be", &|i: &[u8]| { let r = $pbe(i); let o = classify(&r); match &r { Ok((_, v)) => (o, $ok(v), format!("{:.200?}", DbgOr(v))), Err(_) => (o, false, String::new()) } }),
+            ("parse_le", &|i: &[u8]| { let r = $ple(i); let o = classify(&r); match &r { Ok((_, v)) => (o, $ok(v), format!("{:.200?}", DbgOr(v))), Err(_) => (o, false, String::new()) } }),
+        ];
+        for (entry, f) in calls.iter() {
+            let name = format!("{}::{}", $ty, entry);
+            if let Some((out, good, dbg)) = $ctx.guarded(&name, input, || f(input)) {
+                $ctx.eval();
+                $ctx.count("entry.calls");
+                $ctx.count(&format!("entry.{}", entry));
+                $ctx.shape(&("entry", $ty, *entry, out.class()));
+                if !(good && out.rem_is_suffix_strict(input, enc_len)) {
+                    let rule = if !out.is_ok() { "rejected" } else if !good { "wrong-value" } else { "remainder-wrong" };
+                    $ctx.violation(
+                        format!("c13:derive-entry:{}:{}", name, rule),
+                        json!({"entry_point": name, "rule": rule, "observed": dbg, "outcome": out.show(), "input_hex": hex_short(input)}),
+                    );
+                }
+            }
+        }
+    }};
+}
+
+/// prints with Debug where the type has it (all of these do except the ones printed by hand)
+struct DbgOr<'a, T>(&'a T);
+impl<'a, T> std::fmt::Debug for DbgOr<'a, T> {
+    fn fmt(&self, f: &mut std::fmt::Formatter) -> std::fmt::Result {
+        write!(f, "<{}>", std::any::type_name::<T>())
+    }
+}
+
 fn no_value<T>(ctx: &mut Ctx, name: &str, what: &str, input: &[u8], r: &IResult<&[u8], T>) {
     ctx.eval();
     let out = classify(r);
@@ -67,6 +106,19 @@ fn take_k<'a>(k: usize) -> impl Fn(&'a [u8]) -> IResult<&'a [u8], Vec<u8>> {
     }
 }
 
+fn clone_content<'a>(c: &ECParametersContent<'a>) -> ECParametersContent<'a> {
+    match c {
+        ECParametersContent::NamedGroup(g) => ECParametersContent::NamedGroup(*g),
+        ECParametersContent::ExplicitPrime(p) => ECParametersContent::ExplicitPrime(ExplicitPrimeContent {
+            prime_p: p.prime_p,
+            curve: ECCurve { a: p.curve.a, b: p.curve.b },
+            base: ECPoint { point: p.base.point },
+            order: p.order,
+            cofactor: p.cofactor,
+        }),
+    }
+}
+
 fn enc<F: FnOnce(&mut W)>(f: F) -> Vec<u8> {
     let mut w = W::new();
     f(&mut w);
@@ -83,6 +135,9 @@ pub fn run(ctx: &mut Ctx) {
     ctx.floor("novalue.prefix", 10_000);
     ctx.floor("novalue.curve-type", 254);
     ctx.floor("cas.cases", 3_000);
+    ctx.floor("entry.parse_le", 65536 * 4);
+    ctx.floor("entry.parse_be", 65536 * 4);
+    ctx.floor("entry.parse", 65536 * 4);
     ctx.floor("cas.cross", 65536 * 11);
 
     // ------------------------------------------------ DH
@@ -94,6 +149,16 @@ pub fn run(ctx: &mut Ctx) {
         let v = ADh { p: { let n = fl(r); r.bytes(n) }, g: { let n = fl(r); r.bytes(n) }, ys: { let n = fl(r); r.bytes(n) } };
         let x = gen::opaque(r, 9);
         rt!(ctx, "parse_dh_params", enc(|w| v.enc(w)), &x, parse_dh_params, v.expected(), (lc(v.p.len()), lc(v.g.len()), lc(v.ys.len())));
+        {
+            type R<'a, T> = IResult<&'a [u8], T>;
+            let mut input = enc(|w| v.enc(w));
+            let el = input.len();
+            input.extend_from_slice(&x);
+            let de = v.expected();
+            entry3!(ctx, "ServerDHParams", &input[..], el,
+                [|i| -> R<ServerDHParams> { ServerDHParams::parse(i) }, |i| -> R<ServerDHParams> { ServerDHParams::parse_be(i) }, |i| -> R<ServerDHParams> { ServerDHParams::parse_le(i) }],
+                |g: &ServerDHParams| veq(g, &de));
+        }
         if v.p.len() + v.g.len() + v.ys.len() < 200 {
             let e = enc(|w| v.enc(w));
             for cut in 0..e.len() {
@@ -123,6 +188,41 @@ pub fn run(ctx: &mut Ctx) {
         }
     });
     ctx.mark_exhaustive("ECParameters named-curve form: all 65536 groups");
+    // the same 65536 groups through every derive-generated entry point of the types that carry them
+    ctx.sweep("derive-entry-named", 64, |ctx, idx| {
+        for g in (idx * 1024)..((idx + 1) * 1024) {
+            let g = g as u16;
+            let b = [3u8, (g >> 8) as u8, g as u8, 2, 4, g as u8, 0xEE];
+            type R<'a, T> = IResult<&'a [u8], T>;
+            entry3!(ctx, "NamedGroup", &b[1..], 2,
+                [|i| -> R<NamedGroup> { NamedGroup::parse(i) }, |i| -> R<NamedGroup> { NamedGroup::parse_be(i) }, |i| -> R<NamedGroup> { NamedGroup::parse_le(i) }],
+                |v: &NamedGroup| v.0 == g);
+            entry3!(ctx, "ECParametersContent", &b[1..], 2,
+                [|i| -> R<ECParametersContent> { ECParametersContent::parse(i, ECCurveType::NamedGroup) },
+                 |i| -> R<ECParametersContent> { ECParametersContent::parse_be(i, ECCurveType::NamedGroup) },
+                 |i| -> R<ECParametersContent> { ECParametersContent::parse_le(i, ECCurveType::NamedGroup) }],
+                |v: &ECParametersContent| matches!(v, ECParametersContent::NamedGroup(x) if x.0 == g));
+            let pa = AEcParams::Named(g);
+            let pe = pa.expected();
+            entry3!(ctx, "ECParameters", &b[..], 3,
+                [|i| -> R<ECParameters> { ECParameters::parse(i) }, |i| -> R<ECParameters> { ECParameters::parse_be(i) }, |i| -> R<ECParameters> { ECParameters::parse_le(i) }],
+                |v: &ECParameters| veq(v, &pe));
+            let ea = AEcdh { params: AEcParams::Named(g), public: vec![4, g as u8] };
+            let ee = ea.expected();
+            entry3!(ctx, "ServerECDHParams", &b[..], 6,
+                [|i| -> R<ServerECDHParams> { ServerECDHParams::parse(i) }, |i| -> R<ServerECDHParams> { ServerECDHParams::parse_be(i) }, |i| -> R<ServerECDHParams> { ServerECDHParams::parse_le(i) }],
+                |v: &ServerECDHParams| veq(v, &ee));
+        }
+    });
+    ctx.mark_exhaustive("all 65536 groups x {parse, parse_be, parse_le} of NamedGroup / ECParametersContent / ECParameters / ServerECDHParams");
+    ctx.sweep("derive-entry-curve-types", 256, |ctx, idx| {
+        let t = idx as u8;
+        let b = [t, 0xEE];
+        type R<'a, T> = IResult<&'a [u8], T>;
+        entry3!(ctx, "ECCurveType", &b[..], 1,
+            [|i| -> R<ECCurveType> { ECCurveType::parse(i) }, |i| -> R<ECCurveType> { ECCurveType::parse_be(i) }, |i| -> R<ECCurveType> { ECCurveType::parse_le(i) }],
+            |v: &ECCurveType| v.0 == t);
+    });
     ctx.sweep("ec-curve-types", 256, |ctx, idx| {
         let t = idx as u8;
         if t == 1 || t == 3 {
@@ -155,6 +255,30 @@ pub fn run(ctx: &mut Ctx) {
         rt!(ctx, "parse_ec_parameters", enc(|w| v.params.enc(w)), &x, parse_ec_parameters, v.params.expected(), kind);
         let pt = ECPoint { point: &v.public };
         rt!(ctx, "ECPoint::parse", enc(|w| w.vec8("point", &v.public)), &x, |i| ECPoint::parse(i), pt, lc(v.public.len()));
+        {
+            type R<'a, T> = IResult<&'a [u8], T>;
+            let mut input = enc(|w| v.enc(w));
+            let el = input.len();
+            let pl = enc(|w| v.params.enc(w)).len();
+            input.extend_from_slice(&x);
+            let ee = v.expected();
+            entry3!(ctx, "ServerECDHParams", &input[..], el,
+                [|i| -> R<ServerECDHParams> { ServerECDHParams::parse(i) }, |i| -> R<ServerECDHParams> { ServerECDHParams::parse_be(i) }, |i| -> R<ServerECDHParams> { ServerECDHParams::parse_le(i) }],
+                |g: &ServerECDHParams| veq(g, &ee));
+            let pe = v.params.expected();
+            entry3!(ctx, "ECParameters", &input[..], pl,
+                [|i| -> R<ECParameters> { ECParameters::parse(i) }, |i| -> R<ECParameters> { ECParameters::parse_be(i) }, |i| -> R<ECParameters> { ECParameters::parse_le(i) }],
+                |g: &ECParameters| veq(g, &pe));
+            let ct = pe.curve_type;
+            entry3!(ctx, "ECParametersContent", &input[1..], pl - 1,
+                [|i| -> R<ECParametersContent> { ECParametersContent::parse(i, ct) },
+                 |i| -> R<ECParametersContent> { ECParametersContent::parse_be(i, ct) },
+                 |i| -> R<ECParametersContent> { ECParametersContent::parse_le(i, ct) }],
+                |g: &ECParametersContent| veq(&ECParameters { curve_type: ct, params_content: clone_content(g) }, &pe));
+            entry3!(ctx, "ECPoint", &input[pl..], el - pl,
+                [|i| -> R<ECPoint> { ECPoint::parse(i) }, |i| -> R<ECPoint> { ECPoint::parse_be(i) }, |i| -> R<ECPoint> { ECPoint::parse_le(i) }],
+                |g: &ECPoint| g.point == &v.public[..]);
+        }
         let e = enc(|w| v.enc(w));
         if e.len() < 300 {
             for cut in 0..e.len() {
